@@ -272,6 +272,8 @@ def _mk_leaves():
     add(Leaf("Pattern", "re.Pattern", lambda ns: [re.compile(p) for p in PATTERNS], lambda v: v.pattern, re.Pattern))
     add(Leaf("date", "datetime.date", lambda ns: list(DATES), lambda v: v.isoformat(), datetime.date, keyable=True, strkey=True, temporal=True))
     add(Leaf("datetime", "datetime.datetime", lambda ns: list(DATETIMES), lambda v: v.isoformat(), datetime.datetime, keyable=True, strkey=True, temporal=True))
+    add(Leaf("DTsub", "DTsub", lambda ns: [ns["DTsub"](1970, 1, 1, tzinfo=UTC), ns["DTsub"](2020, 2, 29, 23, 59, 59, 999999, tzinfo=tz(330)), ns["DTsub"](2001, 9, 9, 1, 46, 40, tzinfo=tz(-60))],
+             lambda v: v.isoformat(), _cls("DTsub"), temporal=True))
     add(Leaf("time", "datetime.time", lambda ns: list(TIMES), lambda v: v.isoformat(), datetime.time, temporal=True))
     add(Leaf("timedelta", "datetime.timedelta", lambda ns: list(TIMEDELTAS), iso8601.write_duration, datetime.timedelta, temporal=True))
     for en, key, sk in (("EInt", True, False), ("EStr", True, True), ("EMix", False, False), ("EIntEnum", True, False), ("EStrMix", True, True)):
@@ -316,6 +318,8 @@ def _mk_leaves():
     add(struct("PCcv", kw, hashable=True))
     add(struct("PCinh", kw, hashable=True))
     add(struct("PCinit", kw, hashable=True))
+    add(struct("PCinitE", kw, hashable=True))
+    add(struct("SOleaf", kw, hashable=True))
     add(struct("SC", kw, hashable=True))
     td = struct("TD", lambda c, a, b: {"a": a, "b": b})
     tdnr = struct("TDnr", lambda c, a, b: {"a": a, "b": b})
